@@ -165,12 +165,24 @@ def gen_history(rng):
     return {"kind": "history", "uri_nodes": rng.random() < 0.3, "ops": ops}
 
 
+def exhaustive_histories(n_nodes: int, max_len: int, flags=(0, 1)):
+    """every call sequence up to max_len over n_nodes nodes (self-loops, repeats, both flags)"""
+    import itertools
+    calls = [[r, a, b] for r in flags for a in range(n_nodes) for b in range(n_nodes)]
+    out = []
+    for length in range(1, max_len + 1):
+        for seq in itertools.product(calls, repeat=length):
+            out.append({"kind": "history", "uri_nodes": False, "ops": [list(c) for c in seq],
+                        "exhaustive": True})
+    return out
+
+
 def gen_flags(rng):
     r = rng.random()
     if r < 0.6:
         return {"minimal": True, "with_operators": True, "with_dependencies": True}
     if r < 0.8:
-        return {}                                    # everything on (the default)
+        return {"with_dependencies": True}           # everything on (the defaults)
     return {"minimal": True, "with_dependencies": True, "with_types": True,
             "with_noncanonical_types": True, "with_labels": True}
 
@@ -244,12 +256,12 @@ FIXED = [
     {"kind": "expr", "n_inputs": 1, "exprs": ["t3 f f2 f 1"], "primitive": True, "preadd": False,
      "preadd_seed": 0, "flags": {"minimal": True, "with_operators": True, "with_dependencies": True}},
     {"kind": "expr", "n_inputs": 2, "exprs": ["h2 c2 1 2", "g 1 (f 2)"], "primitive": True, "preadd": False,
-     "preadd_seed": 0, "flags": {}},
+     "preadd_seed": 0, "flags": {"with_dependencies": True}},
     {"kind": "expr", "n_inputs": 1, "exprs": ["g (f 1) (g (f 1) (-: A))"], "primitive": True, "preadd": True,
      "preadd_seed": 1, "flags": {"minimal": True, "with_operators": True, "with_dependencies": True}},
-    {"kind": "workflow", "sources": ["s0", "s1"], "passthrough": True, "flags": {},
+    {"kind": "workflow", "sources": ["s0", "s1"], "passthrough": True, "flags": {"with_dependencies": True},
      "tools": [["t0", "f (1: A)", ["s0"]], ["t1", "g 1 (f 2)", ["t0", "s1"]], ["t2", "g 1 2", ["t1", "t0"]]]},
-    {"kind": "workflow", "sources": ["s0", "s1"], "passthrough": False, "flags": {},
+    {"kind": "workflow", "sources": ["s0", "s1"], "passthrough": False, "flags": {"with_dependencies": True},
      "tools": [["t0", "f (1: A)", ["s0"]], ["t1", "g 1 (f 2)", ["t0", "s1"]], ["t2", "g 1 2", ["t1", "t0"]]]},
     {"kind": "workflow", "sources": ["s0", "s1"], "passthrough": False,
      "flags": {"minimal": True, "with_operators": True, "with_dependencies": True},
@@ -302,6 +314,16 @@ def sets_of(g, num):
     fr = sorted({(num(a), num(b)) for a, b in g.subject_objects(TF["from"])})
     dp = sorted({(num(a), num(b)) for a, b in g.subject_objects(TF.depends)})
     return fr, dp
+
+
+def checked_history(ops, fr):
+    """The logged calls, provided the log accounts for exactly the from-edges of the
+    finished graph.  If it does not (say the code adds triples past the overridable
+    Graph.add), fall back to the finished graph's from-edges in sorted order: by
+    C09_order_irrelevant the model's result does not depend on the order."""
+    if {(a, b) for _, a, b in ops} == set(fr):
+        return ops, True
+    return [[0, a, b] for a, b in fr], False
 
 
 def history_of(log, num):
@@ -379,16 +401,17 @@ def run_impl(case, lang):
                         g.expr_nodes[s] = g.add_expr(s, root)
             g.add_expr(e, root)
             snaps.append(sets_of(g, num))
-        ops = history_of(g.log, num)
-        return {"status": "ok", "snapshots": snaps, "ops": ops, "stepwise": False}
+        ops, traced = checked_history(history_of(g.log, num), snaps[-1][0])
+        return {"status": "ok", "snapshots": snaps, "ops": ops, "stepwise": False, "traced": traced}
     if kind == "workflow":
         g = Traced(lang, passthrough=case["passthrough"], **flags)
         wf = WorkflowDict(TEST.wf,
             {TEST[name]: (text, [TEST[i] for i in inputs]) for name, text, inputs in case["tools"]},
             {TEST[s] for s in case["sources"]})
         g.add_workflow(wf)
-        ops = history_of(g.log, num)
-        return {"status": "ok", "snapshots": [sets_of(g, num)], "ops": ops, "stepwise": False}
+        snap = sets_of(g, num)
+        ops, traced = checked_history(history_of(g.log, num), snap[0])
+        return {"status": "ok", "snapshots": [snap], "ops": ops, "stepwise": False, "traced": traced}
     raise ValueError(kind)
 
 
@@ -411,6 +434,22 @@ def closure(edges):
             stack.extend(succ.get(x, ()))
         out |= {(a, x) for x in seen}
     return out
+
+
+def pinned_sim(ops):
+    """what the pinned add_from would record for this call sequence -- used only to
+    classify the root cause of an already failing large case (the small ones are
+    classified with the Coq model [run_pinned])"""
+    frm, dep = set(), set()
+    for r, a, b in ops:
+        frm.add((a, b))
+        dep.add((a, b))
+        if r:
+            below = {b} | {y for x, y in closure(frm) if x == b}
+        else:
+            below = {y for x, y in dep if x == b}
+        dep |= {(a, y) for y in below}
+    return sorted(dep)
 
 
 def bottom_up(ops) -> bool:
@@ -485,6 +524,11 @@ def main(tier: str, seed: int, replay: str | None = None) -> int:
     else:
         nh, ne, nw = (160, 150, 90) if tier == "quick" else (2500, 2000, 1200)
         cases = [dict(c) for c in FIXED]
+        if tier == "quick":
+            cases += exhaustive_histories(2, 2)                       # 8 + 64
+        else:
+            cases += exhaustive_histories(3, 2)                       # 18 + 324
+            cases += [c for c in exhaustive_histories(3, 3, flags=(0,)) if len(c["ops"]) == 3]   # 729
         cases += [gen_history(rng) for _ in range(nh)]
         cases += [gen_expr_case(rng) for _ in range(ne)]
         cases += [gen_workflow_case(rng) for _ in range(nw)]
@@ -510,6 +554,24 @@ def main(tier: str, seed: int, replay: str | None = None) -> int:
             continue
         runs.append((case, res))
 
+    # ---- oracle only for the few very large graphs (the Coq model evaluation is cubic):
+    # plain Python closure on the finished graph
+    cap_calls, cap_dep = (40, 400) if tier == "quick" else (64, 800)
+    big = [(c, r) for c, r in runs if len(r["ops"]) > cap_calls or len(r["snapshots"][-1][1]) > cap_dep]
+    runs = [(c, r) for c, r in runs if not (len(r["ops"]) > cap_calls or len(r["snapshots"][-1][1]) > cap_dep)]
+    big_fail = 0
+    big_viol = []
+    for bi, (case, res) in enumerate(big):
+        fr, dp = res["snapshots"][-1]
+        want, have = closure(fr), set(dp)
+        if want != have:
+            big_fail += 1
+            sig = SIG_PINNED if (sorted(have) == pinned_sim(res["ops"]) and not (have - want)) else None
+            big_viol.append((f"{pre}oracle_big_{case['kind']}_{bi}", {"case": case, "history": res["ops"],
+                "how": howto(case), "kind": "oracle",
+                "what": "depends differs from the transitive closure of from on a generated graph",
+                "from": fr, "depends": dp, "missing": sorted(want - have), "extra": sorted(have - want)}, sig))
+
     # ---- model
     blocks = []
     for ci, (case, res) in enumerate(runs):
@@ -527,13 +589,13 @@ def main(tier: str, seed: int, replay: str | None = None) -> int:
         if blocks else []
 
     # ---- compare
-    n_eval = 0
+    n_eval = len(big)
     n_dis = 0
     n_oracle_fail = 0
     distinct = set()
     dist = {"history": 0, "expr": 0, "workflow": 0, "calls": 0, "recursive_calls": 0,
             "not_bottom_up": 0, "cyclic": 0, "higher_order": 0, "passthrough_off": 0,
-            "multi_expr": 0, "preadd": 0, "max_calls": 0, "max_depends": 0,
+            "multi_expr": 0, "preadd": 0, "max_calls": 0, "max_depends": 0, "history_not_from_log": 0,
             "full_graph_flags": 0}
     samples = []
     failing = []      # (size, name, payload, signature, has_input)
@@ -553,12 +615,13 @@ def main(tier: str, seed: int, replay: str | None = None) -> int:
         dist["max_calls"] = max(dist["max_calls"], len(ops))
         dist["max_depends"] = max(dist["max_depends"], len(dp))
         nbu = not bottom_up(ops)
+        dist["history_not_from_log"] += not res.get("traced", True)
         dist["not_bottom_up"] += nbu
         dist["cyclic"] += cyclic(fr)
         if kind != "history":
             dist["higher_order"] += any(w in " ".join(case.get("exprs") or [t[1] for t in case["tools"]])
                 for w in ("h ", "h2 ", "m ", "t3 ", "k ", "ch"))
-            dist["full_graph_flags"] += not case.get("flags")
+            dist["full_graph_flags"] += "minimal" not in (case.get("flags") or {})
         if kind == "workflow":
             dist["passthrough_off"] += not case["passthrough"]
         if kind == "expr":
@@ -622,6 +685,8 @@ def main(tier: str, seed: int, replay: str | None = None) -> int:
         by_sig[k] = by_sig.get(k, 0) + 1
         if by_sig[k] <= 2:
             rep.violation(name, payload, has_input=has_input, signature=sig)
+    for name, payload, sig in big_viol[:2]:
+        rep.violation(name, payload, has_input=True, signature=sig)
     if not failing:
         # correspondence-only disagreements (no failing input of the property itself)
         for name, payload in disagree[:5]:
@@ -634,8 +699,13 @@ def main(tier: str, seed: int, replay: str | None = None) -> int:
     total = max(1, dist["history"] + dist["expr"] + dist["workflow"])
     rep.coverage.update({
         "evaluations": n_eval, "distinct_nontrivial": len(distinct), "disagreements": n_dis,
-        "oracle_failures": n_oracle_fail, "crashes_in_add_from": len(crashed),
-        "rule": "10 fixed cases (design probes, pinned test shapes); random add_from call sequences over 2-8 nodes, "
+        "oracle_failures": n_oracle_fail + big_fail, "crashes_in_add_from": len(crashed),
+        "large_graphs_oracle_only": {"count": len(big), "rule": f"more than {cap_calls} add_from calls or "
+            f"{cap_dep} depends triples: closure oracle only, no model evaluation"},
+        "exhaustive_scope": ("all add_from call sequences of length <= 2 over 2 nodes, both flags" if tier == "quick"
+            else "all add_from call sequences of length <= 2 over 3 nodes with both flags, and all of length 3 "
+                 "over 3 nodes with recursive=False"),
+        "rule": "10 fixed cases (design probes, pinned test shapes); the exhaustive scope; random add_from call sequences over 2-8 nodes, "
                 "1-24 calls, 25% recursive, chains inserted top-down / acyclic / arbitrary (self-loops, cycles, "
                 "repeats), compared with the model after every call; type-directed random expressions over a "
                 "language with first-order, higher-order (1-3 function arguments, partial applications) and "
